@@ -35,6 +35,9 @@ pub struct GraphStats {
     pub not_closed: bool,
 }
 
+/// history entry meaning "flush()" (every other entry is the length of a write)
+const FLUSH: u32 = u32::MAX;
+
 struct Node {
     hist: Vec<u32>,
     offset: usize,
@@ -46,6 +49,10 @@ fn replay(x: &[u8], opts: &Opts, hist: &[u32]) -> (StreamH, usize, Vec<OpObs>) {
     let mut off = 0usize;
     let mut obs = Vec::with_capacity(hist.len());
     for &k in hist {
+        if k == FLUSH {
+            obs.push(h.apply(&SOp::Flush));
+            continue;
+        }
         let r = h.apply(&SOp::Write(Hex(x[off..off + k as usize].to_vec())));
         if let (V::Ok, Some(c)) = (&r.v, r.n) {
             off += c as usize;
@@ -61,6 +68,11 @@ fn case_of(x: &[u8], opts: &Opts, hist: &[u32], extra: &[SOp]) -> Case {
     let mut off = 0usize;
     let mut ops = Vec::new();
     for &k in hist {
+        if k == FLUSH {
+            h.apply(&SOp::Flush);
+            ops.push(SOp::Flush);
+            continue;
+        }
         let op = SOp::Write(Hex(x[off..off + k as usize].to_vec()));
         let r = h.apply(&op);
         ops.push(op);
@@ -186,12 +198,26 @@ pub fn explore_from(ctx: &Ctx, x: &[u8], opts: &Opts, mode: &Mode, label: &str, 
         let sink0 = h0.sink_bytes();
         gs.max_window_buf = gs.max_window_buf.max(h0.window_buf_len());
         // ------------------------------------------------------------ per-node checks
-        // flush never panics / fails on an infallible sink
+        // flush() never panics and does not fail on an infallible sink. It usually changes nothing; if an implementation
+        // uses it to hand pending bytes to the sink (or changes any other state), the state after the flush is one more
+        // node of the graph and is explored like every other (all writes, the finish probe, the mode's invariants)
         {
             let (mut h, _, _) = replay(x, opts, &hist);
             let r = h.apply(&SOp::Flush);
-            if !r.v.is_ok() || h.fingerprint(false) != fp0 {
-                viol(&hist, &[SOp::Flush], "flush() returns Ok and changes nothing".into(), &h, &r);
+            gs.edges += 1;
+            if !r.v.is_ok() {
+                viol(&hist, &[SOp::Flush], "flush() returns Ok (the sink never fails here)".into(), &h, &r);
+            } else if h.fingerprint(false) != fp0 {
+                let fpn = h.fingerprint(false);
+                if !seen.contains_key(&(offset, fpn)) {
+                    let mut nh = hist.clone();
+                    nh.push(FLUSH);
+                    seen.insert((offset, fpn), (nodes.len(), h.fingerprint(true)));
+                    nodes.push(Node { hist: nh, offset, failed });
+                    q.push_back(nodes.len() - 1);
+                    gs.states += 1;
+                    ctx.add_extra_count("states_reached_only_through_flush", 1);
+                }
             }
         }
         match mode {
@@ -340,6 +366,16 @@ pub fn explore_from(ctx: &Ctx, x: &[u8], opts: &Opts, mode: &Mode, label: &str, 
                                 viol(&hist, &ops, "finish() stays Err after a failed write".into(), &h, &rf);
                             }
                         }
+                        // the same through io::Write::write_all (what callers and io::copy use): nothing is consumed, so
+                        // a non-empty buffer cannot be reported as written
+                        {
+                            let (mut h, _, _) = replay(x, opts, &hist);
+                            let op = SOp::StdWriteAll(Hex(j.clone()));
+                            let r = h.apply(&op);
+                            if !(r.v.is_err() && h.sink_len() == sink0.len()) {
+                                viol(&hist, &[op], "after a failed write, write_all of a non-empty buffer is an error (no input is reported as consumed) and delivers nothing".into(), &h, &r);
+                            }
+                        }
                     }
                     continue;
                 }
@@ -368,6 +404,14 @@ pub fn explore_from(ctx: &Ctx, x: &[u8], opts: &Opts, mode: &Mode, label: &str, 
                                 if !(rr.v.is_ok() && rr.n == Some(0) && h.sink_len() == sink0.len()) {
                                     viol(&hist, &[op.clone(), op.clone()], format!("declared size {} reached ({} bytes produced): further writes consume nothing and leave the output unchanged", s, produced.unwrap_or(0)), &h, rr);
                                     break;
+                                }
+                            }
+                            {
+                                let (mut h2, _, _) = replay(x, opts, &hist);
+                                let opw = SOp::StdWriteAll(Hex(j.clone()));
+                                let rw = h2.apply(&opw);
+                                if !(rw.v.is_err() && h2.sink_len() == sink0.len()) {
+                                    viol(&hist, &[opw], format!("declared size {} reached: write_all of a non-empty buffer is an error (nothing more is consumed) and leaves the output unchanged", s), &h2, &rw);
                                 }
                             }
                             let rf = h.apply(&SOp::Finish);
